@@ -115,6 +115,9 @@ RULE_BODIES = {
     'choice': ('choice', [('seq', [('tok', 'a'), ('tok', 'b')]), ('tok', 'a')]),
     'const': ('seq', [('tok', 'a'), ('const', 'k')]),
     'nested-call': ('seq', [('call', 'leaf'), ('call', 'leaf')]),
+    'none-valued': ('opt', ('tok', 'b')),           # the rule's value is None when the optional is skipped
+    'empty-closure': ('rep', False, None, False, ('tok', 'b')),
+    'void': 'void',
 }
 
 
